@@ -433,6 +433,22 @@ def _histories_s3(ctx, rep):
                     t = tablekit.create(loc)
                     for i in range(rng.choice([1, 2, 3, 11])):
                         t.append_records(tablekit.rows(rng.randint(1, 2), start=i * 10))
+                    if cas:
+                        # one more append whose conditional pointer PUT is ANSWERED "precondition failed / conflict" once (it did not take
+                        # effect, and the store says so): a lost race, not an unknowable outcome — nothing uncommitted may be left to win a recovery
+                        code = rng.choice(["PreconditionFailed", "ConditionalRequestConflict", "ConditionalRequestConflict", "412"])
+                        left = {"n": 1}
+
+                        def put409(phase, op, key, kw, _left=left, _code=code):
+                            if phase == "before" and op == "put" and str(key).endswith("metadata.version-hint.text") and _left["n"] and (kw.get("IfMatch") or kw.get("IfNoneMatch")):
+                                _left["n"] -= 1
+                                raise fakes3.client_error(_code, "PutObject", status=int(_code) if _code.isdigit() else (409 if "Conflict" in _code else 412))
+                        env.fake.hook = put409
+                        try:
+                            t.append_records(tablekit.rows(1, start=7000))
+                        except Exception:       # noqa: BLE001
+                            pass
+                        env.fake.hook = None
                     store = reader.S3Store(env.fake, loc)
                     v = reader.view(store)
                     before = {"uuid": v["uuid"], "snaps": sorted(s_["id"] for s_ in v["snaps"]), "rows": v["rows"],
